@@ -86,14 +86,14 @@ def load(reg):
 
     # ---- callback contract of a listener: any code using public APIs; may raise anything
     reg.contract("EventListener.notify", params={"event": "ref:Event"}, abstract=True,
-                 modifies=["heap.*"], may_raise=[("Exception", "True")], on_raise="any",
+                 modifies=["heap.*"], may_raise=[("CallbackError", "True")], on_raise="any",
                  note="callback contract: the listener may call any public API (nested fire, "
                       "(un)subscription on this producer included) and may raise", props=C08)
     SNAP = "get(%s, event._event_type)" % L0
     reg.contract("EventProducer.fire_event", params={"event": "obj"},
                  requires=["PWF(self)"],
                  raises=[("EventError", "not instance(event, 'Event')")],
-                 may_raise=[("Exception", "instance(event, 'Event') and has(self._listeners, asref(event, 'Event')._event_type)")],
+                 may_raise=[("CallbackError", "instance(event, 'Event') and has(self._listeners, asref(event, 'Event')._event_type)")],
                  on_raise="any",
                  modifies=["heap.*"], props=C08, axiom_sets=AX)
     for fe, ev in (("EventProducer.fire_event", "event"), ("EventProducer.fire_timed_event", "timed_event")):
@@ -112,7 +112,7 @@ def load(reg):
     reg.contract("EventProducer.fire_timed_event", params={"timed_event": "obj"},
                  requires=["PWF(self)"],
                  raises=[("EventError", "not instance(timed_event, 'TimedEvent')")],
-                 may_raise=[("Exception", "instance(timed_event, 'TimedEvent') and has(self._listeners, asref(timed_event, 'TimedEvent')._event_type)")],
+                 may_raise=[("CallbackError", "instance(timed_event, 'TimedEvent') and has(self._listeners, asref(timed_event, 'TimedEvent')._event_type)")],
                  on_raise="any",
                  modifies=["heap.*"], props=C08, axiom_sets=AX)
 
@@ -160,13 +160,13 @@ def load_events(reg):
     reg.contract("EventProducer.fire", params={"event_type": "obj", "content": "obj", "check": "bool"},
                  requires=["PWF(self)", "implies(instance(event_type, 'EventType'), ETWF(asref(event_type, 'EventType')))"],
                  raises=[("EventError", BAD)],
-                 may_raise=[("Exception", "instance(event_type, 'EventType') and has(self._listeners, asref(event_type, 'EventType'))")],
+                 may_raise=[("CallbackError", "instance(event_type, 'EventType') and has(self._listeners, asref(event_type, 'EventType'))")],
                  on_raise="any", modifies=["heap.*"], props=C08, axiom_sets=AX)
     reg.contract("EventProducer.fire_timed",
                  params={"time": "obj", "event_type": "obj", "content": "obj", "check": "bool"},
                  requires=["PWF(self)", "implies(instance(event_type, 'EventType'), ETWF(asref(event_type, 'EventType')))"],
                  raises=[("EventError", "not (isnum(time) or instance(time, 'Quantity')) or (%s)" % BAD)],
-                 may_raise=[("Exception", "instance(event_type, 'EventType') and has(self._listeners, asref(event_type, 'EventType'))")],
+                 may_raise=[("CallbackError", "instance(event_type, 'EventType') and has(self._listeners, asref(event_type, 'EventType'))")],
                  on_raise="any", modifies=["heap.*"], props=C08, axiom_sets=AX)
 
 
